@@ -267,18 +267,18 @@ class TotalProgressSnapshot(Target):
     trusted = ["a thread inside `with comp_lock:` is excluded by comp_lock holders only: whether every writer of comp_done takes "
                "the lock is CHECKED on the source (frames.calls_outside_lock); if one does not, the environment may act under the lock too",
                "compute_stage_status returns a value in [0,1] (get_stage_status, proved below; status programs trusted)"]
-    assumptions = ["3 stages, the current one is stage 1; every initial placement of the other two (not started / in transit / "
-                   "finished); the environment may finish any stage in transit at any unlocked call (BOUNDED in n)"]
-    N = 3
-    CUR = 1
+    assumptions = ["1..3 (quick) / 4 (thorough) stages, any of them the current one; every initial placement of the others (not started / in transit / "
+                   "finished); the environment may finish any stage in transit at any call it is not excluded from (BOUNDED in n)"]
+    NMAX_SNAPSHOT = 4 if os.environ.get('VERIF_TIER') == 'thorough' else 3
 
     def setup(self, c):
         g = c.ghost
-        n = self.N
+        n = 1 + c.choice('n', self.NMAX_SNAPSHOT)
+        self_cur = c.choice('current_stage', n)
         weights = [c.real('w%d' % i) for i in range(n)]
         world = {}
         for i in range(n):
-            if i != self.CUR:
+            if i != self_cur:
                 world[i] = c.one_of('stage%d.initially' % i, ['transit', 'finished', 'not-started'])
         g['held'] = 0
         g['total'] = None
@@ -329,8 +329,8 @@ class TotalProgressSnapshot(Target):
                    experiment=Obj('experiment', _stages=stages), log=NULLLOG,
                    statusFile=Obj('statusfile', setTotalProgress=Extern('Status.setTotalProgress', set_total),
                                   setExperimentState=Extern('Status.setExperimentState', lambda c, s: None)))
-        return State(kwargs={'self': this, 'controller': controller, 'stage': stages[self.CUR], 'stageState': 'running'},
-                     weights=weights, world=world, progress=progress, initial=dict(world))
+        return State(kwargs={'self': this, 'controller': controller, 'stage': stages[self_cur], 'stageState': 'running'},
+                     weights=weights, world=world, progress=progress, initial=dict(world), cur=self_cur)
 
     def requires(self, c, st):
         return And(close_to_one(total(st.weights)), *[compare('>=', w, 0) for w in st.weights])
@@ -342,8 +342,8 @@ class TotalProgressSnapshot(Target):
         cl = [('reported', t is not None),
               ('between-zero-and-one-whatever-the-other-threads-do', And(compare('>=', t, 0), compare('<=', t, 1 + TOL))),
               ('lock-released', c.ghost['held'] == 0)]
-        if all(v == 'finished' for v in st.initial.values()) and self.CUR in st.progress:
-            cl.append(('one-when-every-stage-has-completed', Implies(compare('==', st.progress[self.CUR], 1), close_to_one(t))))
+        if all(v == 'finished' for v in st.initial.values()) and st.cur in st.progress:
+            cl.append(('one-when-every-stage-has-completed', Implies(compare('==', st.progress[st.cur], 1), close_to_one(t))))
         return cl
 
     def cross_compare(self, *a):
